@@ -103,6 +103,53 @@ pub fn run_case(scope: &Scope, case: &J, rng: &mut Rng) -> J {
   rec
 }
 
+/// Replaces the content of every string node by "S" and collects the contents (as code points) in source order.
+fn strip_strings(t: &mut J, out: &mut Vec<J>) {
+  if t.get("n").and_then(|n| n.as_str()) == Some("str") {
+    let cps: Vec<u32> = t["s"].as_str().unwrap_or("").chars().map(|c| c as u32).collect();
+    out.push(json!(cps));
+    t["s"] = json!("S");
+    return;
+  }
+  match t {
+    J::Object(m) => {
+      // children in the order they are written: a / b, items
+      for k in ["a", "b", "items"] {
+        if let Some(v) = m.get_mut(k) {
+          strip_strings(v, out);
+        }
+      }
+    }
+    J::Array(a) => a.iter_mut().for_each(|v| strip_strings(v, out)),
+    _ => {}
+  }
+}
+
+/// One string-literal case of Gen_C06 (STRLIT): the literal written alone and inside the contexts StringLiteral.tla names.
+pub fn run_strlit(case: &J) -> J {
+  let lit: String = crate::codec::from_cps(&case["lit"]);
+  let other = "\"x//y/*z\"";
+  let mut obs = vec![];
+  let mut texts = vec![];
+  for c in case["ctxs"].as_array().cloned().unwrap_or_default() {
+    let text = match c["key"].as_str().unwrap_or("") {
+      "alone" => lit.clone(),
+      "list" => format!("[ {} , b ]", lit),
+      "sum" => format!("{} + a", lit),
+      "commented" => format!("{} /* c */ + a // t", lit),
+      "two" => format!("[ {} , {} , b ]", lit, other),
+      "after" => format!("[ {} , {} , b ]", other, lit),
+      k => tool_error(&format!("unknown string literal context {}", k)),
+    };
+    let mut tree = parse(&Scope::default(), &text);
+    let mut strs = vec![];
+    strip_strings(&mut tree, &mut strs);
+    obs.push(json!({"key": c["key"], "shape": tree, "strs": strs, "wantshape": c["shape"], "wantstrs": c["strs"]}));
+    texts.push(text);
+  }
+  json!({"strlit": case["lit"], "obs": obs, "texts": texts})
+}
+
 fn escape_records(quick: bool, rng: &mut Rng) -> Vec<J> {
   let scope = Scope::default();
   let mut cps: Vec<u32> = vec![];
@@ -155,6 +202,8 @@ pub fn check(mut ctx: Ctx, replay: Option<J>) -> ! {
     let c = r["case"]["case"].clone();
     if c.get("esc").is_some() {
       recs.push(c.clone());
+    } else if c.get("ctxs").is_some() {
+      recs.push(run_strlit(&c));
     } else {
       recs.push(run_case(&scope, &c, &mut rng));
     }
@@ -179,6 +228,15 @@ pub fn check(mut ctx: Ctx, replay: Option<J>) -> ! {
     }
     ctx.cov("trees", json!(cases.len()));
     ctx.cov("trees_with_a_needed_pair_removed", json!(cases.iter().filter(|c| c.get("nopar").is_some()).count()));
+    let strlits = gen.tagged("STRLIT");
+    if strlits.len() < 1000 {
+      tool_error("too few string literals generated");
+    }
+    for c in &strlits {
+      cases.push(c.clone());
+      recs.push(run_strlit(c));
+    }
+    ctx.cov("string_literals_in_six_contexts", json!(strlits.len()));
     let esc = escape_records(quick, &mut rng);
     ctx.cov("escape_literals", json!(esc.len()));
     for e in esc {
